@@ -47,6 +47,9 @@ def long_ident(r, used):
     while True:
         # (one name in ten begins with an underscore, or is all lower case / all upper case: no spelling is private)
         lead = r.choice(["_", "__", "_x", "q", "QQ_"]) if r.random() < 0.1 else ""
+        if r.random() < 0.05:
+            # identifiers have no length limit: 70 .. 300 characters (an error names them in full)
+            lead = lead + "Long" + "".join(r.choice("abcdefghijklmnopqrstuvwxyz_0123456789") for _ in range(r.choice([70, 90, 120, 300])))
         n = lead + r.choice("ABCDEFGHJKLMNPQRSTVWXYZ") + "".join(r.choice("abcdefghijklmnopqrstuvwxyz0123456789") for _ in range(6)) + r.choice("QXZ")
         if n not in used and not descr.K4_RE.match(n):
             used.add(n)
@@ -167,6 +170,37 @@ def mutate(r, decls, kind):
         f = decls[later[0]]["fields"][0]
         f["type"] = wrap(r, ("struct", alias))
         f.pop("range", None)
+        return decls
+    if kind in ("service-name", "device-name", "enumerator-name", "method-name"):
+        # a field whose type is a name that IS declared earlier in the file - as a service, a device, a method or an
+        # enumerator, not as a struct or an enum: names of other kinds are not types
+        structs = [i for i, d in enumerate(decls) if d["kind"] == "struct"]
+        if len(structs) < 2:
+            return None
+        first, user = structs[0], structs[-1]
+        sname = decls[first]["name"]
+        if kind == "enumerator-name":
+            enums = [d for i, d in enumerate(decls) if d["kind"] == "enum" and i < user]
+            if not enums:
+                return None
+            name = r.choice(enums)["values"][0][0]
+        else:
+            name = {"service-name": "Svc", "device-name": "Dev", "method-name": "Mth"}[kind] + sname
+            svc = {"kind": "service", "name": "Svc" + sname if kind != "device-name" else "Sv2" + sname, "id": 3,
+                   "methods": [{"name": "Mth" + sname, "id": 0, "input": sname, "output": sname}]}
+            extra = [svc]
+            if kind == "device-name":
+                extra.append({"kind": "device", "name": name, "fields": [("services", [("id", svc["name"])])]})
+            pos = r.randint(first + 1, user)
+            decls[pos:pos] = extra
+            user += len(extra)
+        if any(d.get("name") == name for d in decls if d["kind"] in ("struct", "enum")):
+            return None
+        f = decls[user]["fields"][0]
+        f["type"] = wrap(r, ("struct", name))
+        f.pop("range", None)
+        if first_unresolved(decls) is None or first_unresolved(decls)[0] != name:
+            return None
         return decls
     if not refs:
         return None
@@ -318,7 +352,7 @@ def one_schema(run, i, tmp):
         run.case(sig="pos|" + p)
     if not paths:
         run.case(sig="pos|noref")
-    for kind in ("undeclared", "forward", "self", "misspelled", "alias", "case-variant"):
+    for kind in ("undeclared", "forward", "self", "misspelled", "alias", "case-variant", "service-name", "device-name", "enumerator-name", "method-name"):
         rr = run.rng("mut", i, kind)
         m = mutate(rr, decls, kind)
         if m is None:
